@@ -52,6 +52,18 @@ Fixpoint svds_okb (full : list bool) (Xs : list (mat Q)) (tapes : list (mat Q * 
   | _, _, _ => false
   end.
 
+(* mode products are compared at the level the property speaks about: the represented dense tensor (and its shape),
+   not the particular factor that absorbed a contracted vector *)
+Definition zcp_dense_eqb (a b : list Z * list (mat Z)) : bool :=
+  zt_eqb (cp_to_tensor Zops (fst a) (snd a)) (cp_to_tensor Zops (fst b) (snd b)).
+Definition ztk_dense_eqb (a b : tensor Z * list (mat Z)) : bool :=
+  Nat.eqb (length (snd a)) (length (snd b)) &&
+  zt_eqb (tucker_to_tensor Zops (fst a) (snd a)) (tucker_to_tensor Zops (fst b) (snd b)).
+(* compressed slices are compared through what they represent: loading x score (the score itself when nothing was compressed) *)
+Definition recon (p : mat Q * option (mat Q)) : mat Q :=
+  match snd p with Some L => matmul Qops L (fst p) | None => fst p end.
+Definition recon_close (a b : mat Q * option (mat Q)) : bool := qmat_close (recon a) (recon b).
+
 Inductive body :=
 | ZDense (w : list Z) (fs : list (mat Z)) (expected : tensor Z)
 | ZFlip (w : list Z) (fs : list (mat Z)) (mode : nat) (expected : res (list Z * list (mat Z)))
@@ -77,13 +89,13 @@ Definition agree_body (b : body) : bool :=
   | ZDense w fs e => zt_eqb (cp_to_tensor Zops w fs) e
   | ZFlip w fs m e => res_eqb zcp_eqb (cp_flip_sign Zops (col_sum Zops) w fs m) e
   | ZPerm p w fs e => res_eqb zcp_eqb (cp_permute Zops p w fs) e
-  | ZModeDot w fs x m kd e => res_eqb zcp_eqb (cp_mode_dot Zops w fs x m kd) e
+  | ZModeDot w fs x m kd e => res_eqb zcp_dense_eqb (cp_mode_dot Zops w fs x m kd) e
   | QNorm tape w fs e =>
       tape_okb (length w) tape (norm_inputs Qops w fs) && qcp_close (cp_normalize Qops tape w fs) e
   | ZTTDense ring cores e => zt_eqb (if ring then tr_to_tensor Zops cores else tt_to_tensor Zops cores) e
   | ZPad cores npad pb e => res_eqb zts_eqb (pad_tt_rank Zops cores npad pb) e
   | ZTkDense core fs e => zt_eqb (tucker_to_tensor Zops core fs) e
-  | ZTkDot core fs x m kd e => res_eqb ztk_eqb (tucker_mode_dot Zops core fs x m kd) e
+  | ZTkDot core fs x m kd e => res_eqb ztk_dense_eqb (tucker_mode_dot Zops core fs x m kd) e
   | QTkNorm tape core fs e =>
       tk_tape_okb (shape core) tape fs && qtk_close (tucker_normalize Qops tape core fs) e
   | QPf2Norm tape w A B C e =>
@@ -102,7 +114,7 @@ Definition agree_body (b : body) : bool :=
        let '(ew, efs, eps) := e in
        qv_close w' ew && list_eqb qmat_close fs' efs && list_eqb qmat_close ps' eps)
   | QCompress slices thr mr tapes full e =>
-      svds_okb full slices tapes && list_eqb slice_close (svd_compress Qops slices thr mr tapes) e
+      svds_okb full slices tapes && list_eqb recon_close (svd_compress Qops slices thr mr tapes) e
   end.
 
 Definition case := (nat * body)%type.
